@@ -1986,6 +1986,9 @@ class Comparator:
     def compare_iterator(cls, obj1, obj2):
         if type(obj1) is not type(obj2) or len(obj1) != len(obj2):
             return False
+        if isinstance(obj1, set):
+            # no order to go by: equal sets of items that can be compared
+            return obj1 == obj2 and all(cls.is_equal(o, o) for o in obj1)
         for o1, o2 in zip(obj1, obj2):
             if not cls.is_equal(o1, o2):
                 return False
